@@ -450,6 +450,17 @@ def lookup(cls, name):
     return TABLE.get((o, name))
 
 
+def dict_methods(cls):
+    """Names of the public methods of `cls` whose table entry is a dict of
+    named results (kind 'dict' with `sub` kinds)."""
+    out = []
+    for name, _, _ in discover(cls):
+        m = lookup(cls, name)
+        if m is not None and m.kind == "dict" and m.sub:
+            out.append(name)
+    return out
+
+
 def discover(cls, prefix=None, stop_at=None):
     """Public instance methods of `cls` found by introspection, as
     [(name, owner, n_required_args)], in name order.  Static/class methods,
